@@ -173,11 +173,15 @@ func vCsvEntry(two bool, blocks int) {
 	_, wa := l.csvtxWatchList["swap-a"]
 	_, wb := l.csvtxWatchList["swap-b"]
 	zzverif.Assert(wa == (g.okCalls["swap-a"] == 0), "C20.rpc_csv_removed_exactly_when_accepted")
+	// C07's view: the maker's refund depends on this watch - it stays registered, whatever the chain
+	// answers in between, until the swap service accepted the csv notification
+	zzverif.Assert(wa || g.okCalls["swap-a"] > 0, "C07.csv_watch_kept_until_the_swap_was_told")
 	zzverif.Assert(wb == (two && g.okCalls["swap-b"] == 0), "C20.rpc_csv_removed_exactly_when_accepted_b")
 }
 
 // H_C20_rpcCsv_one: bounds: 1 registration, registration + 3 block notifications, all
 // 32-bit csv/confirmations.
+// zzverif:also C07
 func H_C20_rpcCsv_one() { vCsvEntry(false, 3) }
 
 // H_C20_rpcCsv_two: bounds: 2 registrations (independent answers per output), registration
